@@ -29,13 +29,13 @@ ASSUMPTIONS = [
     "starting counter <= cap for mint_counter (above the cap nothing is minted: mint_nothing_after_cap)",
     "ecosystem pool address != dispensation module address (mint_held)",
     "reward periods inside the envelope of DESIGN section 5 (start <= end < 2^62, mod < 2^62, allocation < 2^128 — enforced by ValidateBasic after F5/F13) "
-    "and either pairwise non-overlapping and fixed (rewards_per_block/_per_period), or arbitrarily edited between blocks with clean switches: a period takes over only at its own start block (rewards_*_edits)",
+    "arbitrarily overlapping and arbitrarily edited between blocks (rewards_*_all_histories); histories start at a height >= 1 with an accumulator within the invariant accuInvR (e.g. empty)",
     "per-block theorem: the accumulator invariant holds at the first block of the history (e.g. empty accumulator, or the history contains the period's first block)",
     "cosmos x/mint (SDK inflation module, also wired into the app) is outside /repo/x and /repo/app and not covered by cap_const; the envelope excludes a token registry that aliases a foreign voucher to rowan (ibctransfer helper)",
 ]
 UNPROVED = [
     "'every rewarded coin ends up in a pool or a provider's account': not proved here (needs the clp pool/provider model: C01/C18); the model proves net created <= block distribution and the harness observes only the net supply change.",
-    "non-clean period switches: a period that becomes current in mid-flight (not at its RewardPeriodStartBlock) — an overlapping period listed AFTER the running one taking over when that one ends, or an edit that changes the running period's own end/allocation/mod — still receives the accumulator of its predecessor on the repaired code (witness overlap_residual: A=[1..10] mod 4 listed before B=[5..20] mod 1, block 11 pays B's share plus two shares of A). Excluded by the hypothesis cleanSwitches (edit histories) / periodsDisjoint (fixed schedules); not generated; residual observation, not repaired (a complete repair would store the period id with the accumulator). Edits and overlaps in which every period takes over at its own start block ARE covered: rewards_per_block_edits, rewards_per_period_edits, family rwedits.",
+    "the `_partial` theorems (rewards_per_block/_per_period on fixed non-overlapping schedules; rewards_*_edits_partial under cleanSwitches) are about the model of the tree with only F10 repaired and are kept with their hypotheses and the decide'd witnesses overlap_residual / edit_midflight_residual; the claims for the current tree are rewards_per_block_all_histories / rewards_per_period_all_histories (no hypothesis on switching). The cumulative clause (rewards_entitlement) is stated for the F10-level model on a fixed list only.",
     "cap_const is a syntactic call-site fact (go/ast): an indirect mint through a new wrapper defined outside x/ and app/, or through reflection, is not seen. The dynamic side (messages_create_nothing + supply check on every dispensation message) covers the dispensation messages only; admin messages of other modules are C08/C10.",
     "restart: proved as 'the step functions are functions of the stored state' (mint_restart, rewards_restart) and exercised on the real app with re-opened DB; IAVL/commit durability itself is trusted.",
     "no-panic along whole reward histories is proved per block (rewards_step_no_panic, accumulator < 2^255), not as a history theorem.",
@@ -47,14 +47,14 @@ MANIFEST = {
             "(b) AMM depth rewards, model of the repaired EndBlocker — per block (nothing off distribution blocks, <= floor(alloc/len) in a "
             "period's first block, <= mod*floor(alloc/len) later), per period (<= allocation), cumulative (<= sum of per-block entitlements), for "
             "all schedules of non-overlapping periods in the envelope, all pool splits/transfer failures/burns, and — with the accumulator kept in the "
-            "model state across AddRewardPeriod edits — for all sequences of (edit | block) steps with clean switches (rewards_per_block_edits, "
-            "rewards_per_period_edits); a decide'd witness that the "
+            "model state across AddRewardPeriod edits — for ALL sequences of (edit | block) steps, overlapping lists included, on the model of the tree "
+            "with F27 repaired (rewards_per_block_all_histories, rewards_per_period_all_histories); a decide'd witness that the "
             "pinned tree violates the per-block and per-period clauses (F10); (c) regenerated facts closed by decide: every MintCoins / "
             "SetMintController / AddMintAmount / DistributeDepthRewards call site, every KVStore write of x/dispensation, every reference to "
             "MintControllerPrefix, the cap literal = 350,000,000 rowan, the dispensation module registered exactly once among the begin blockers (F22); "
             "plus messages_create_nothing for the dispensation messages. Tied by differential execution of the real BeginBlocker, the real clp "
             "EndBlocker, the full app with DB restarts, with the predicates judged on the implementation's observations.",
-    "note": "Defects reproduced and repaired: F10 (reward accumulator carried across a period boundary; fixes/F10.diff) and new F22 (dispensation "
+    "note": "Defects reproduced and repaired: F27 (new: a reward period that becomes current in mid-flight — overlapping period listed after the running one, or an edit of the running period's own parameters — paid out its predecessor's accumulator; fixes/F27.diff: EndBlocker keeps the accumulator only for the period that covered the previous height, AddRewardPeriod zeroes it unless that period is unchanged), F10 (reward accumulator carried across a period boundary; fixes/F10.diff) and new F22 (dispensation "
             "BeginBlocker registered twice in app.go: 450 instead of 225 rowan per block; fixes/F22.diff). Trusted: Lean kernel, hand-written "
             "models (correspondence only), the per-pool split as environment value, syntactic call-site extractor, x/bank, module.Manager, "
             "IAVL. Not proved: destination of rewarded coins (C01/C18), overlapping/replaced reward periods (residual observation), see unproved_statements.",
